@@ -36,77 +36,75 @@ func (c *Ctx) codecRun() map[string]*simpleVerdict {
 	res := map[string]*simpleVerdict{}
 	var mu sync.Mutex
 	var wg sync.WaitGroup
+	quotes := []rune{'\'', '"', '«', '「', '😀'}
 	for _, st := range codecStates {
-		for _, q := range []rune{'\'', '"'} {
-			st, q := st, q
-			other := '"'
-			if q == '"' {
-				other = '\''
+		st := st
+		alpha := []string{"'", "\"", "«", "a", "é", "€", "😀", " ", "\n"}
+		var strs []string
+		var rec func(p string, n int)
+		rec = func(p string, n int) {
+			strs = append(strs, p)
+			if n == 0 {
+				return
 			}
-			alpha := []string{string(q), string(other), "a", "é", "€", "😀", " ", "\n"}
-			var strs []string
-			var rec func(p string, n int)
-			rec = func(p string, n int) {
-				strs = append(strs, p)
-				if n == 0 {
+			for _, a := range alpha {
+				rec(p+a, n-1)
+			}
+		}
+		rec("", maxLen)
+		nw := 6
+		for w := 0; w < nw; w++ {
+			wg.Add(1)
+			go func(w int) {
+				defer wg.Done()
+				v := &simpleVerdict{}
+				defer func() {
+					mu.Lock()
+					t := res[st.name]
+					if t == nil {
+						t = &simpleVerdict{}
+						res[st.name] = t
+					}
+					t.runs += v.runs
+					if v.bad != "" && (t.bad == "" || len(v.bad) < len(t.bad)) {
+						t.bad = v.bad
+					}
+					if v.undec != "" && t.undec == "" {
+						t.undec = v.undec
+					}
+					mu.Unlock()
+				}()
+				ctor := c.MustFunc(st.pkg, "", st.ctor)
+				qt := ctor.Signature.Results().At(0).Type()
+				var th *tkHarness
+				m := newMach(c)
+				if st.tokenizer != "" {
+					th = c.newTkHarness(st.tokenizer)
+					if th.fault != "" {
+						v.undec = th.fault
+						return
+					}
+					m = th.m
+					if why := th.setOptions(0); why != "" {
+						v.undec = why
+						return
+					}
+				}
+				// one state object serves every quote character, as the tokenizers use it
+				state, out := m.Call(ctor)
+				if out.kind != "ok" {
+					v.undec = st.ctor + ": " + out.why
 					return
 				}
-				for _, a := range alpha {
-					rec(p+a, n-1)
+				enc := c.lookupMethod(qt, "EncodeString")
+				dec := c.lookupMethod(qt, "DecodeString")
+				if enc == nil || dec == nil {
+					v.undec = "EncodeString/DecodeString not found on " + qt.String()
+					return
 				}
-			}
-			rec("", maxLen)
-			nw := 4
-			for w := 0; w < nw; w++ {
-				wg.Add(1)
-				go func(w int) {
-					defer wg.Done()
-					v := &simpleVerdict{}
-					defer func() {
-						mu.Lock()
-						t := res[st.name]
-						if t == nil {
-							t = &simpleVerdict{}
-							res[st.name] = t
-						}
-						t.runs += v.runs
-						if v.bad != "" && (t.bad == "" || len(v.bad) < len(t.bad)) {
-							t.bad = v.bad
-						}
-						if v.undec != "" && t.undec == "" {
-							t.undec = v.undec
-						}
-						mu.Unlock()
-					}()
-					ctor := c.MustFunc(st.pkg, "", st.ctor)
-					qt := ctor.Signature.Results().At(0).Type()
-					var th *tkHarness
-					m := newMach(c)
-					if st.tokenizer != "" {
-						th = c.newTkHarness(st.tokenizer)
-						if th.fault != "" {
-							v.undec = th.fault
-							return
-						}
-						m = th.m
-						if why := th.setOptions(0); why != "" {
-							v.undec = why
-							return
-						}
-					}
-					state, out := m.Call(ctor)
-					if out.kind != "ok" {
-						v.undec = st.ctor + ": " + out.why
-						return
-					}
-					enc := c.lookupMethod(qt, "EncodeString")
-					dec := c.lookupMethod(qt, "DecodeString")
-					if enc == nil || dec == nil {
-						v.undec = "EncodeString/DecodeString not found on " + qt.String()
-						return
-					}
-					for i := w; i < len(strs); i += nw {
-						s := strs[i]
+				for i := w; i < len(strs); i += nw {
+					s := strs[i]
+					for _, q := range quotes {
 						m.steps = 0
 						v.runs++
 						where := fmt.Sprintf("%s quote state, quote %q, string %q", st.name, string(q), s)
@@ -141,15 +139,14 @@ func (c *Ctx) codecRun() map[string]*simpleVerdict {
 							v.undec = where + ": DecodeString of the encoding: " + out.why
 							continue
 						}
-						if ds != s && v.bad == "" {
-							v.bad = fmt.Sprintf("%s: encodes to %q, which decodes to %q", where, es, ds)
+						if ds != s {
+							if v.bad == "" || len(where) < 70 {
+								v.bad = fmt.Sprintf("%s: encodes to %q, which decodes to %q", where, es, ds)
+							}
 							continue
 						}
-						if th == nil {
-							continue
-						}
-						// the encoded form in a stream is exactly one token (csv: quote characters are its configured ones)
-						if st.tokenizer == "csv" && q != '"' {
+						// the encoded form in a stream is exactly one token (for the quote characters the tokenizer is configured with)
+						if th == nil || (q != '"' && !(st.tokenizer == "expression" && q == '\'')) {
 							continue
 						}
 						r := th.tokenize(es)
@@ -164,8 +161,8 @@ func (c *Ctx) codecRun() map[string]*simpleVerdict {
 							}
 						}
 					}
-				}(w)
-			}
+				}
+			}(w)
 		}
 	}
 	wg.Wait()
@@ -175,7 +172,7 @@ func (c *Ctx) codecRun() map[string]*simpleVerdict {
 
 func init() {
 	register(&Rule{ID: "CODEC.roundtrip", Floor: 3,
-		Doc: "the generic, expression and CSV quote states evaluated abstractly: DecodeString(EncodeString(s,q),q)=s and no decode panics, for every string up to a bounded length over {quote, other quote, letter, 2-/3-/4-byte characters, space, newline} and both quote characters; for the expression and CSV states the encoding is read back from a stream as exactly one token",
+		Doc: "the generic, expression and CSV quote states evaluated abstractly: DecodeString(EncodeString(s,q),q)=s and no decode panics, for every string up to a bounded length over {quote, other quote, letter, 2-/3-/4-byte characters, space, newline} and five quote characters (ASCII, Latin-1, non-Latin, astral) served by one state object; for the expression and CSV states the encoding is read back from a stream as exactly one token",
 		Run: func(c *Ctx) []*Obligation {
 			o := newObl("CODEC.roundtrip")
 			res := c.codecRun()
